@@ -16,6 +16,7 @@
 #include "Covariances/CovContext.hpp"
 #include "Covariances/CovFactory.hpp"
 #include "Enum/ECov.hpp"
+#include "Geometry/Rotation.hpp"
 #include "Matrix/MatrixRectangular.hpp"
 #include "Matrix/MatrixSquareSymmetric.hpp"
 #include "Model/Model.hpp"
@@ -826,6 +827,292 @@ VF_PART(sums)
     if (emin < -1e-10 * scale) C.violation("sum:psd", "nested model not (conditionally) PSD: min eigenvalue " + fmt(emin) + "; " + txt + " points=" + name, std::to_string(id));
     if (idx[2] || idx[3]) C.nontrivial(id);
     if (id % 331 == 1) C.sample("{\"id\":" + std::to_string(id) + ",\"case\":" + jstr(txt) + "}");
+  });
+}
+
+
+// =================================================================================================================
+// Construction routes.  The same final parameter set must give the same covariance (= the closed form) whatever the public
+// route that produced it.  Two parts:
+//   routes  : the one-call routes (constructors, createIsotropic/Anisotropic(Multi), Model::createFromParam/addCovFromParam,
+//             clone, Model::setRangeIsotropic) for the same requested (ranges|scales, angles, param, sill);
+//   setters : E2-flavoured: every sequence of 1..3 (thorough 4) public setters of CovAniso (repetitions allowed), replayed on a
+//             fresh object (bare, or owned by a Model and reached through Model::getCova) and on an abstract reference state
+//             (scales, rotation matrix, param, sill).  Semantics of the reference, from the class documentation ("All these
+//             parameters are processed and stored as a tensor", CovAniso.hpp; "Practical range" setters): a range setter
+//             stores scale = range / getScadef() for the CURRENT third parameter; setParam keeps the stored scales (so the
+//             practical range reported by getRanges() follows the parameter) - this is how getRanges() is defined
+//             (scales x scadef).  After EVERY step the getters and the covariance at a set of lags are judged.
+static const char* RKEYS[5] = {"SPHERICAL", "EXPONENTIAL", "GAUSSIAN", "MATERN", "CAUCHY"};
+static const Info& infoOf(const char* k) { for (int i = 0; i < NTYPE; i++) if (std::string(TABLE[i].key) == k) return TABLE[i]; return TABLE[0]; }
+struct AState
+{
+  int nd;
+  std::vector<double> scales, angles;
+  Mat R;
+  double param = 1., sill = 1.;
+};
+static std::vector<std::vector<double>> routeLags(int nd)
+{
+  std::vector<std::vector<double>> L;
+  static const double D2[5][2] = {{1, 0}, {0, 1}, {1, 1}, {1, -1}, {2, 1}};
+  static const double D3[6][3] = {{1, 0, 0}, {0, 1, 0}, {0, 0, 1}, {1, 1, 0}, {1, -1, 1}, {1, 2, -1}};
+  for (double a : {0.3, 1.1})
+  {
+    if (nd == 2) for (auto& d : D2) L.push_back({a * d[0], a * d[1]});
+    if (nd == 3) for (auto& d : D3) L.push_back({a * d[0], a * d[1], a * d[2]});
+  }
+  return L;
+}
+static double refCovState(const Info& I, const AState& st, const std::vector<double>& h)
+{
+  Eigen::VectorXd v(st.nd);
+  for (int i = 0; i < st.nd; i++) v[i] = h[i];
+  Eigen::VectorXd u = st.R.transpose() * v;
+  double t = 0;
+  for (int i = 0; i < st.nd; i++) t += (u[i] / st.scales[i]) * (u[i] / st.scales[i]);
+  return st.sill * refRho(I.key, std::sqrt(t), st.param);
+}
+// judge a CovAniso against the abstract state; returns "" or the name of the first disagreeing observation (+ text in *what)
+static std::string judgeState(const Info& I, const CovAniso* c, const AState& st, std::string* what)
+{
+  int nd = st.nd;
+  double scadef = declaredScadef(I, nd, st.param);
+  const VectorDouble& sc = c->getScales();
+  VectorDouble rg = c->getRanges();
+  for (int i = 0; i < nd; i++)
+    if (!(std::fabs(sc[i] - st.scales[i]) <= 1e-13 * st.scales[i])) { *what = "getScales()=" + vstr(sc) + " expected " + vstr(st.scales); return "getter:scales"; }
+  for (int i = 0; i < nd; i++)
+    if (!(std::fabs(rg[i] - st.scales[i] * scadef) <= 1e-12 * st.scales[i] * scadef)) { *what = "getRanges()=" + vstr(rg) + " expected scales x scadef = " + fmt(st.scales[i] * scadef) + " on axis " + std::to_string(i); return "getter:ranges"; }
+  if (I.nparam > 0 && c->getParam() != st.param) { *what = "getParam()=" + fmt(c->getParam()) + " expected " + fmt(st.param); return "getter:param"; }
+  if (c->getSill(0, 0) != st.sill) { *what = "getSill()=" + fmt(c->getSill(0, 0)) + " expected " + fmt(st.sill); return "getter:sill"; }
+  Mat Rl = toEigen(c->getAnisoRotMat()), Ri = toEigen(c->getAnisoInvMat());
+  if ((Rl - st.R).cwiseAbs().maxCoeff() > 1e-12) { *what = "getAnisoRotMat() differs from the rotation that was set by " + fmt((Rl - st.R).cwiseAbs().maxCoeff()); return "getter:rotmat"; }
+  if ((Ri - st.R.transpose()).cwiseAbs().maxCoeff() > 1e-12) { *what = "getAnisoInvMat() is not the transpose of the rotation that was set"; return "getter:invmat"; }
+  VectorDouble an = c->getAnisoAngles();
+  Mat Ra = refRot(nd, std::vector<double>(an.begin(), an.end()));
+  if ((Ra - st.R).cwiseAbs().maxCoeff() > 1e-9) { *what = "getAnisoAngles()=" + vstr(an) + " do not rebuild the rotation that was set (max diff " + fmt((Ra - st.R).cwiseAbs().maxCoeff()) + ")"; return "getter:angles"; }
+  SpaceRN space(nd);
+  SpacePoint p1(VectorDouble(nd, 0.), -1, &space);
+  double tol = (std::string(I.key) == "MATERN" ? 1e-7 : 1e-9) * st.sill;
+  for (auto& h : routeLags(nd))
+  {
+    SpacePoint p2(VectorDouble(h.begin(), h.end()), -1, &space);
+    double v = c->eval(p1, p2, 0, 0), r = refCovState(I, st, h);
+    if (!(std::fabs(v - r) <= tol))
+    {
+      // what would an unrotated / isotropic evaluation give? (diagnosis only)
+      AState s2 = st; s2.R = Mat::Identity(nd, nd);
+      *what = "C(h=" + vstr(h) + ")=" + fmt(v) + " but the closed form for scales " + vstr(st.scales) + " angles " + vstr(an) + " param " + fmt(st.param) + " sill " + fmt(st.sill) + " gives " + fmt(r) +
+              (std::fabs(v - refCovState(I, s2, h)) <= tol ? " (the value is the one of the UNROTATED structure)" : "") + " while every getter reports the requested parameters";
+      return "eval";
+    }
+  }
+  return "";
+}
+
+static const char* ROUTES[10] = {"ctor+setters", "ctor(range,param,sill)", "createIsotropic", "createAnisotropic", "createIsotropicMulti", "createAnisotropicMulti",
+                                 "Model::createFromParam", "Model::addCovFromParam", "clone", "Model::setRangeIsotropic+setSill"};
+VF_PART(routes)
+{
+  Space sp;
+  sp.axis("route", 10).axis("type", 5).axis("ndim", 2).axis("param", 2).axis("range", 3).axis("aniso", 3).axis("rot", 4).axis("flagRange", 2);
+  for_each_case(C, sp, [&](uint64_t id, const std::vector<int>& idx) {
+    const Info& I = infoOf(RKEYS[idx[1]]);
+    const std::string K = I.key;
+    int nd = idx[2] + 2, route = idx[0];
+    static const double P2[5] = {1., 1., 1., 2.5, 2.};
+    if (idx[3] == 1 && I.nparam == 0) return;
+    double param = idx[3] ? P2[idx[1]] : (I.nparam ? 0.5 : 1.);
+    if (I.nparam == 0) param = 1.;
+    bool flagRange = idx[7];
+    Geo g = makeGeo(nd, idx[4], idx[5], idx[6]);
+    bool isoOnly = route == 1 || route == 2 || route == 4;
+    if (isoOnly && (idx[5] || idx[6])) return;
+    if (idx[5] == 0 && idx[6] > 1) return;
+    const double sill = 2.5;
+    double scadef = declaredScadef(I, nd, param);
+    AState st; st.nd = nd; st.param = param; st.sill = sill; st.R = g.R; st.angles = g.angles;
+    for (double r : g.ranges) st.scales.push_back(flagRange ? r / scadef : r);
+    VectorDouble rg(g.ranges.begin(), g.ranges.end()), ang(g.angles.begin(), g.angles.end());
+    SpaceRN space(nd); CovContext ctxt(1, &space);
+    ECov type = ECov::fromKey(I.key);
+    std::unique_ptr<CovAniso> own; std::unique_ptr<Model> model; const CovAniso* c = nullptr;
+    try
+    {
+      switch (route)
+      {
+        case 0: case 8:
+        {
+          own.reset(new CovAniso(type, ctxt));
+          own->setParam(param);
+          if (flagRange) own->setRanges(rg); else own->setScales(rg);
+          own->setAnisoAngles(ang); own->setSill(sill);
+          if (route == 8) { CovAniso* cl = own->clone(); CovAniso cp(*cl); delete cl; own.reset(new CovAniso(type, ctxt)); *own = cp; }
+          break;
+        }
+        case 1: own.reset(new CovAniso(type, rg[0], param, sill, ctxt, flagRange)); break;
+        case 2: own.reset(CovAniso::createIsotropic(ctxt, type, rg[0], sill, param, flagRange)); break;
+        case 3: own.reset(CovAniso::createAnisotropic(ctxt, type, rg, sill, param, ang, flagRange)); break;
+        case 4: { MatrixSquareSymmetric ms(1); ms.setValue(0, 0, sill); own.reset(CovAniso::createIsotropicMulti(ctxt, type, rg[0], ms, param, flagRange)); break; }
+        case 5: { MatrixSquareSymmetric ms(1); ms.setValue(0, 0, sill); own.reset(CovAniso::createAnisotropicMulti(ctxt, type, rg, ms, param, ang, flagRange)); break; }
+        case 6: model.reset(Model::createFromParam(type, 1., sill, param, rg, VectorDouble(), ang, &space, flagRange)); break;
+        case 7: model.reset(new Model(ctxt)); model->addCovFromParam(type, 1., sill, param, rg, VectorDouble(), ang, flagRange); break;
+        case 9:
+        {
+          if (!flagRange) return;
+          model.reset(Model::createFromParam(type, 1., sill, param, rg, VectorDouble(), ang, &space, true));
+          if (model && model->getCovaNumber() == 1) { model->setRangeIsotropic(0, 1.75); model->setSill(0, 0, 0, 1.5); }
+          for (auto& s : st.scales) s = 1.75 / scadef;
+          st.sill = 1.5;
+          break;
+        }
+      }
+    }
+    catch (...) { C.violation(std::string("route:throws:") + ROUTES[route], std::string(ROUTES[route]) + " throws; " + caseText(I, g, param, ""), std::to_string(id)); return; }
+    if (model) { if (model->getCovaNumber() != 1) { C.violation(std::string("route:refused:") + ROUTES[route], std::string(ROUTES[route]) + " did not create the structure; " + caseText(I, g, param, ""), std::to_string(id)); return; } c = model->getCova(0); }
+    else c = own.get();
+    if (c == nullptr) { C.violation(std::string("route:refused:") + ROUTES[route], std::string(ROUTES[route]) + " returned nothing; " + caseText(I, g, param, ""), std::to_string(id)); return; }
+    C.eval();
+    std::string what, obs = judgeState(I, c, st, &what);
+    const std::string txt = std::string(ROUTES[route]) + "(" + (flagRange ? "ranges=" : "scales=") + vstr(g.ranges) + ", angles=" + vstr(g.angles) + ", param=" + fmt(param) + ", sill=" + fmt(sill) + ") " + K + " ndim=" + std::to_string(nd);
+    if (!obs.empty())
+    {
+      // mechanism: the range was converted into a scale with the scale factor of the DEFAULT third parameter (range set before param)
+      bool defConv = false;
+      if (flagRange && I.nparam > 0)
+      {
+        double sd1 = declaredScadef(I, nd, 1.);
+        defConv = true;
+        for (int i = 0; i < nd; i++) if (!(std::fabs(c->getScales()[i] - g.ranges[i] / sd1) <= 1e-12 * g.ranges[i])) defConv = false;
+        if (route == 9) defConv = false;
+      }
+      if (defConv)
+        C.violation(std::string("route:range-converted-before-param:") + ROUTES[route], txt + ": the requested practical range is not honoured: " + what + " - the scales are range/scadef(param=1)=" + vstr(c->getScales()) +
+                    " because the range is set BEFORE the third parameter (the constructor CovAniso(type,range,param,sill) and Model::addCovFromParam set the parameter first and give range " + vstr(g.ranges) + ")", std::to_string(id));
+      else
+        C.violation(std::string("route:") + obs + ":" + ROUTES[route], txt + ": " + what, std::to_string(id));
+    }
+    C.outcome(std::string(ROUTES[route]) + (obs.empty() ? "/agrees" : "/DIFFERS"));
+    if (model)
+    {
+      // through the Model: matrix on a 3^d lattice = closed form, PSD
+      Pts P = lattice(nd, 3, 0.4 * g.ranges[0]);
+      std::unique_ptr<Db> db(ptsToDb(P, nd));
+      Mat M = toEigen(model->evalCovMatrixSymmetric(db.get()));
+      double worst = 0;
+      for (size_t i = 0; i < P.size(); i++) for (size_t j = 0; j < P.size(); j++)
+      { std::vector<double> h(nd); for (int k = 0; k < nd; k++) h[k] = P[j][k] - P[i][k]; worst = std::max(worst, std::fabs(M(i, j) - refCovState(I, st, h))); }
+      if (obs.empty() && worst > (K == "MATERN" ? 1e-7 : 1e-9) * sill) C.violation(std::string("route:matrix:") + ROUTES[route], txt + ": Model matrix differs from the closed form by " + fmt(worst), std::to_string(id));
+    }
+    if (g.rotated() && g.aniso()) C.nontrivial(id);
+    if (id % 1499 == 3) C.sample("{\"id\":" + std::to_string(id) + ",\"case\":" + jstr(txt) + "}");
+  });
+}
+
+// ---- setter sequences -------------------------------------------------------------------------------------------------
+enum { OP_RANGE_ISO, OP_RANGES, OP_RANGE_0, OP_RANGE_LAST, OP_SCALE_1, OP_SCALES, OP_SCALE_ISO, OP_ANGLES, OP_ANGLE_0, OP_ANGLE_1, OP_ROT_OBJ, OP_ROT_VEC,
+       OP_RAR_RANGES, OP_RAR_SCALES, OP_PARAM, OP_SILL, NOPS };
+static const char* OPN[NOPS] = {"setRangeIsotropic", "setRanges", "setRange(0,.)", "setRange(last,.)", "setScale(1,.)", "setScales", "setScale(.)", "setAnisoAngles", "setAnisoAngle(0,.)",
+                                "setAnisoAngle(1,.)", "setAnisoRotation(Rotation)", "setAnisoRotation(matrix)", "setRotationAnglesAndRadius(angles,ranges)", "setRotationAnglesAndRadius(,,scales)",
+                                "setParam", "setSill"};
+static VectorDouble vd(int nd, double a, double b, double c) { VectorDouble v {a, b}; if (nd == 3) v.push_back(c); return v; }
+// applies op to the library object and to the abstract state; false: op not applicable in this dimension / structure
+static bool applyOp(int op, const Info& I, CovAniso* c, AState& st, std::string* txt)
+{
+  int nd = st.nd;
+  auto scadef = [&]() { return declaredScadef(I, nd, st.param); };
+  // the angles the next single-angle setter starts from are the ones the object reports (validated against R by judgeState)
+  auto setAngles = [&](const VectorDouble& a) { st.angles.assign(a.begin(), a.end()); if (nd == 2) st.angles[1] = 0.; st.R = refRot(nd, st.angles); };
+  switch (op)
+  {
+    case OP_RANGE_ISO: c->setRangeIsotropic(2.); for (auto& s : st.scales) s = 2. / scadef(); *txt = "setRangeIsotropic(2)"; break;
+    case OP_RANGES: { VectorDouble v = vd(nd, 4, 1.5, 0.75); c->setRanges(v); for (int i = 0; i < nd; i++) st.scales[i] = v[i] / scadef(); *txt = "setRanges(" + vstr(v) + ")"; break; }
+    case OP_RANGE_0: c->setRange(0, 3.); st.scales[0] = 3. / scadef(); *txt = "setRange(0,3)"; break;
+    case OP_RANGE_LAST: c->setRange(nd - 1, 0.5); st.scales[nd - 1] = 0.5 / scadef(); *txt = "setRange(" + std::to_string(nd - 1) + ",0.5)"; break;
+    case OP_SCALE_1: c->setScale(1, 1.25); st.scales[1] = 1.25; *txt = "setScale(1,1.25)"; break;
+    case OP_SCALES: { VectorDouble v = vd(nd, 2, 1, 0.5); c->setScales(v); for (int i = 0; i < nd; i++) st.scales[i] = v[i]; *txt = "setScales(" + vstr(v) + ")"; break; }
+    case OP_SCALE_ISO: c->setScale(0.75); for (auto& s : st.scales) s = 0.75; *txt = "setScale(0.75)"; break;
+    case OP_ANGLES: { VectorDouble a = nd == 2 ? VectorDouble {30, 0} : VectorDouble {40, 20, 10}; c->setAnisoAngles(a); setAngles(a); *txt = "setAnisoAngles(" + vstr(a) + ")"; break; }
+    case OP_ANGLE_0: { VectorDouble a = c->getAnisoAngles(); a[0] = 135.; c->setAnisoAngle(0, 135.); setAngles(a); *txt = "setAnisoAngle(0,135)"; break; }
+    case OP_ANGLE_1: { if (nd == 2) return false; VectorDouble a = c->getAnisoAngles(); a[1] = -60.; c->setAnisoAngle(1, -60.); setAngles(a); *txt = "setAnisoAngle(1,-60)"; break; }
+    case OP_ROT_OBJ: { VectorDouble a = nd == 2 ? VectorDouble {-20, 0} : VectorDouble {135, -60, 75}; Rotation r(nd); r.setAngles(a); c->setAnisoRotation(r); setAngles(a); *txt = "setAnisoRotation(Rotation" + vstr(a) + ")"; break; }
+    case OP_ROT_VEC: { VectorDouble a = nd == 2 ? VectorDouble {60, 0} : VectorDouble {10, 0, 350}; Rotation r(nd); r.setAngles(a); c->setAnisoRotation(r.getMatrixDirectVec()); setAngles(a); *txt = "setAnisoRotation(matrix of " + vstr(a) + ")"; break; }
+    case OP_RAR_RANGES: { VectorDouble a = nd == 2 ? VectorDouble {90, 0} : VectorDouble {0, 90, 0}; VectorDouble v = vd(nd, 1, 3, 2); c->setRotationAnglesAndRadius(a, v, VectorDouble());
+                          setAngles(a); for (int i = 0; i < nd; i++) st.scales[i] = v[i] / scadef(); *txt = "setRotationAnglesAndRadius(" + vstr(a) + ",ranges=" + vstr(v) + ")"; break; }
+    case OP_RAR_SCALES: { VectorDouble v = vd(nd, 0.5, 0.25, 1); c->setRotationAnglesAndRadius(VectorDouble(), VectorDouble(), v); for (int i = 0; i < nd; i++) st.scales[i] = v[i]; *txt = "setRotationAnglesAndRadius(,,scales=" + vstr(v) + ")"; break; }
+    case OP_PARAM: { if (I.nparam == 0) return false; double p = std::string(I.key) == "MATERN" ? 2.5 : 2.; c->setParam(p); st.param = p; *txt = "setParam(" + fmt(p) + ")"; break; }
+    case OP_SILL: c->setSill(2.5); st.sill = 2.5; *txt = "setSill(2.5)"; break;
+    default: return false;
+  }
+  return true;
+}
+VF_PART(setters)
+{
+  const bool th = C.thorough();
+  Space sp;
+  // op axes: NOPS = "no further call"; the 4th call is enumerated in the thorough tier only
+  sp.axis("host", 2).axis("type", 5).axis("ndim", 2).axis("op1", NOPS).axis("op2", NOPS + 1).axis("op3", NOPS + 1).axis("op4", NOPS + 1);
+  for_each_case(C, sp, [&](uint64_t id, const std::vector<int>& idx) {
+    const Info& I = infoOf(RKEYS[idx[1]]);
+    int nd = idx[2] + 2;
+    std::vector<int> ops;
+    for (int k = 3; k < 7; k++)
+    {
+      if (idx[k] == NOPS) { for (int j = k + 1; j < 7; j++) if (idx[j] != NOPS) return; break; }   // "none" only at the tail
+      ops.push_back(idx[k]);
+    }
+    if (!th && C.only_case.empty() && ops.size() > 3) return;
+    // the 4-call histories: only those that touch a by-direction setter or a rotation (the others are products of independent calls)
+    if (ops.size() == 4)
+    {
+      bool dir = false, rot = false;
+      for (int o : ops) { if (o == OP_RANGE_0 || o == OP_RANGE_LAST || o == OP_SCALE_1 || o == OP_ANGLE_0 || o == OP_ANGLE_1) dir = true; if (o >= OP_ANGLES && o <= OP_RAR_RANGES) rot = true; }
+      if (!(dir && rot)) return;
+    }
+    SpaceRN space(nd); CovContext ctxt(1, &space);
+    ECov type = ECov::fromKey(I.key);
+    std::unique_ptr<CovAniso> own; std::unique_ptr<Model> model; CovAniso* c = nullptr;
+    if (idx[0] == 0) { own.reset(new CovAniso(type, ctxt)); c = own.get(); }
+    else { CovAniso c0(type, ctxt); model.reset(new Model(ctxt)); model->addCov(&c0); if (model->getCovaNumber() != 1) { C.violation("setters:model-addCov", "Model::addCov refused a default structure", std::to_string(id)); return; } c = model->getCova(0); }
+    AState st; st.nd = nd; st.scales.assign(nd, 1.); st.angles.assign(nd, 0.); st.R = Mat::Identity(nd, nd); st.param = 1.; st.sill = 1.;
+    std::string hist, what, obs;
+    bool rotatedThenDir = false, seenRot = false;
+    try
+    {
+      for (size_t k = 0; k < ops.size(); k++)
+      {
+        std::string t;
+        if (!applyOp(ops[k], I, c, st, &t)) return;   // op not applicable (2-D second angle, parameter of a structure without one)
+        hist += (k ? "; " : "") + t;
+        if (ops[k] >= OP_ANGLES && ops[k] <= OP_RAR_RANGES && (st.R - Mat::Identity(nd, nd)).cwiseAbs().maxCoeff() > 0) seenRot = true;
+        if (seenRot && (ops[k] == OP_RANGE_0 || ops[k] == OP_RANGE_LAST || ops[k] == OP_SCALE_1)) rotatedThenDir = true;
+        C.eval();
+        obs = judgeState(I, c, st, &what);
+        if (!obs.empty())
+        {
+          C.violation("setters:" + obs + ":after=" + OPN[ops[k]], std::string(I.key) + " ndim=" + std::to_string(nd) + (idx[0] ? " (structure owned by a Model, reached by getCova(0))" : "") + " after {" + hist + "}: " + what, std::to_string(id));
+          break;
+        }
+      }
+    }
+    catch (...) { C.violation("setters:throws", std::string(I.key) + " ndim=" + std::to_string(nd) + " {" + hist + "} throws", std::to_string(id)); return; }
+    C.outcome(std::string(obs.empty() ? "agrees" : "DIFFERS") + "/len" + std::to_string(ops.size()) + (rotatedThenDir ? "/by-direction-radius-after-rotation" : ""));
+    if (obs.empty() && model)
+    {
+      // through the Model that owns the structure: matrix on a 3^d lattice = closed form and PSD
+      Pts P = lattice(nd, 3, 0.6);
+      std::unique_ptr<Db> db(ptsToDb(P, nd));
+      Mat M = toEigen(model->evalCovMatrixSymmetric(db.get()));
+      double worst = 0;
+      for (size_t i = 0; i < P.size(); i++) for (size_t j = 0; j < P.size(); j++)
+      { std::vector<double> h(nd); for (int k = 0; k < nd; k++) h[k] = P[j][k] - P[i][k]; worst = std::max(worst, std::fabs(M(i, j) - refCovState(I, st, h))); }
+      if (worst > (std::string(I.key) == "MATERN" ? 1e-7 : 1e-9) * st.sill) C.violation("setters:model-matrix", std::string(I.key) + " after {" + hist + "}: Model::evalCovMatrixSymmetric differs from the closed form by " + fmt(worst), std::to_string(id));
+      Eigen::SelfAdjointEigenSolver<Mat> es(0.5 * (M + M.transpose()), Eigen::EigenvaluesOnly);
+      if (es.eigenvalues().minCoeff() < -1e-10 * M.trace()) C.violation("setters:model-psd", std::string(I.key) + " after {" + hist + "}: matrix not PSD, min eigenvalue " + fmt(es.eigenvalues().minCoeff()), std::to_string(id));
+    }
+    if (rotatedThenDir) C.nontrivial(id);
+    if (id % 9973 == 11) C.sample("{\"id\":" + std::to_string(id) + ",\"history\":" + jstr(std::string(I.key) + " ndim=" + std::to_string(nd) + " {" + hist + "}") + "}");
   });
 }
 
